@@ -26,6 +26,9 @@ static inline _Bool vstr_eq_cstr(const vstr* s, const char* c) { size_t i = 0; _
   return eq && end; }
 static inline struct part mk_part(const vstr* name, int idx) { struct part p; p.first = *name; p.second = idx; return p; }
 static inline void partvec_push(struct partvec* v, struct part p) { __CPROVER_assert(v->n < PCAP, "model capacity: more parts than PCAP"); if (v->n < PCAP) { v->e[v->n] = p; v->n = v->n + 1; } }
+static inline size_t vstr_rfind_char(const vstr* s, char ch) { size_t r = VSTR_NPOS; for (size_t i = 0; i < VSTR_CAP; i++) { if (i < s->n && s->d[i] == ch) r = i; } return r; }
+_Bool g_restart_topic;
+static inline _Bool env_is_restart_topic(const vstr* t) { (void)t; return g_restart_topic; }
 static inline void env_normalize(vstr* s) { (void)s; __CPROVER_assert(0, "model: normalize is not used by the topic path"); }
 static inline void env_tolower(vstr* s) { (void)s; }   /* the harness uses lower case text only when ignoreCase is set */
 #include "gen_protos.h"
@@ -122,4 +125,27 @@ void h_topic_parse(void) {
   if (ok && sr.m_parts.n >= 3 && p->second == KNOWN_name) { CANARY("template with %name"); }
   if (!ok) { CANARY("template rejected"); }
   if (sr.m_parts.n >= 4) { CANARY("four parts"); }
+}
+
+/* a received topic "<template part>/<get|set|list>[?args]" is split at its last slash; anything else is ignored */
+void h_split_topic(void) {
+  vstr base = nondet_vstr(), args = nondet_vstr(); int dir = nondet_int(); _Bool with_args = nondet_bool(); g_restart_topic = 0;
+  __CPROVER_assume(vstr_valid(&base) && base.n <= 3 && vstr_valid(&args) && args.n <= 1 && dir >= 0 && dir <= 3);
+  for (size_t k = 0; k <= VSTR_CAP; k++) { if (k < base.n) __CPROVER_assume(base.d[k] != 0); else __CPROVER_assume(base.d[k] == 0);
+    if (k < args.n) __CPROVER_assume(args.d[k] != 0 && args.d[k] != '/'); else __CPROVER_assume(args.d[k] == 0); }
+  vstr topic = base; vstr_push(&topic, '/');
+  if (dir == 0) { vstr_push(&topic, 'g'); vstr_push(&topic, 'e'); vstr_push(&topic, 't'); }
+  else if (dir == 1) { vstr_push(&topic, 's'); vstr_push(&topic, 'e'); vstr_push(&topic, 't'); }
+  else if (dir == 2) { vstr_push(&topic, 'l'); vstr_push(&topic, 'i'); vstr_push(&topic, 's'); vstr_push(&topic, 't'); }
+  else { vstr_push(&topic, 'g'); vstr_push(&topic, 'e'); }      /* some other last level */
+  if (with_args) { vstr_push(&topic, '?'); vstr_append(&topic, &args); }
+  vstr mt = vstr_new(), ar = vstr_new(); _Bool w = nondet_bool(), l = nondet_bool(), acc = nondet_bool();
+  Mqtt_splitTopic(&topic, &mt, &ar, &w, &l, &acc);
+  __CPROVER_assert(acc == (dir <= 2), "[C18] a topic is handled iff its last level is get, set or list (optionally followed by ?args)");
+  if (acc) {
+    __CPROVER_assert(vstr_equal(mt, base), "[C18] the part before the last slash is what is matched against the topic template");
+    __CPROVER_assert(w == (dir == 1) && l == (dir == 2), "[C18] set is a write, list a listing, get a read");
+    __CPROVER_assert(vstr_equal(ar, with_args ? args : vstr_new()), "[C18] the text after ? is passed on as arguments");
+    if (dir == 2 && with_args && base.n == 3) { CANARY("list with arguments"); }
+  } else { CANARY("ignored topic"); }
 }
